@@ -193,10 +193,10 @@ func specGenuineER6(s *icmpDriver, p *packets.FrameParser, t uint8) bool {
 //@ requires[pre.nonnil]   s != nil && s.sink != nil && s.sentProbes != nil
 //@ requires[C10.send.open]  selb(isOpen, ref(s.sink))
 //@ requires[pre.past]     forall(k, 0, 256, s.sentProbes[k] <= now())
-//@ ensures[C06.once]      ret0 == nil ==> !old(specSent(s, ttl)) && !old(has(s.sentProbes, ttl)) && specSent(s, ttl) && specInRange(s, ttl)
+//@ ensures[C01+C06.once]      ret0 == nil ==> !old(specSent(s, ttl)) && !old(has(s.sentProbes, ttl)) && specSent(s, ttl) && specInRange(s, ttl)
 // the probe is registered (matchable by the receiver) before it is on the wire: a reply can never overtake its own bookkeeping
-//@ before Sink.WriteTo assert[C02+C05+C06.send.registered] specSent(s, ttl)
-//@ ensures[C06.others]    forall(k, 0, 256, k != int(ttl) ==> s.sentProbes[k] == old(s.sentProbes[k]) && has(s.sentProbes, k) == old(has(s.sentProbes, k)))
+//@ before Sink.WriteTo assert[C01+C02+C05+C06.send.registered] specSent(s, ttl)
+//@ ensures[C01+C06.others]    forall(k, 0, 256, k != int(ttl) ==> s.sentProbes[k] == old(s.sentProbes[k]) && has(s.sentProbes, k) == old(has(s.sentProbes, k)))
 //@ ensures[C05.stamp]     ret0 == nil ==> wrN == old(wrN)+1 && s.sentProbes[ttl] <= wrClock && s.sentProbes[ttl] >= old(now())
 //@ ensures[C05.past]      forall(k, 0, 256, s.sentProbes[k] <= now())
 //@ ensures[C06.wire.ttl]  ret0 == nil ==> ghost(ser.ttl) == int(ttl) && ghost(ser.version) == ite(s.isIPV6, 6, 4)
@@ -215,7 +215,7 @@ func specGenuineER6(s *icmpDriver, p *packets.FrameParser, t uint8) bool {
 //@ ensures[C09.recv.class]  ret1 != nil && !chain(ret1, *common.ReceiveProbeNoPktError) && !chain(ret1, *common.BadPacketError) ==> ioFail
 //@ ensures[C09.recv.io]     ioFail == old(ioFail) || ret1 != nil
 //@ ensures[C01.recv.fresh]  ret0 != nil ==> fresh(ret0)
-//@ ensures[C09.recv.state]  forall(k, 0, 256, s.sentProbes[k] == old(s.sentProbes[k]) && has(s.sentProbes, k) == old(has(s.sentProbes, k)))
+//@ ensures[C01+C09.recv.state]  forall(k, 0, 256, s.sentProbes[k] == old(s.sentProbes[k]) && has(s.sentProbes, k) == old(has(s.sentProbes, k)))
 //@ modifies s.mu, packets.FrameParser.IP4, packets.FrameParser.IP6, packets.FrameParser.TCP, packets.FrameParser.ICMP4, packets.FrameParser.ICMP6, packets.FrameParser.Payload, packets.FrameParser.Layers, gopacket.DecodingLayerParser, elems(s.buffer), ghost clock, ghost ioFail
 
 // ---- C11 isolation: a packet that is a genuine reply for run a and for run b forces the two runs to share their
